@@ -80,7 +80,7 @@ class _Gen:
         ind = "  "
         out = ""
         # outer header(s): every (o, i) pair maps to a distinct g < 64
-        form = r.choice(["up", "up", "le", "down", "tile"]) if not two_outer else "two"
+        form = r.choice(["up", "up", "le", "down", "tile", "rev", "gt"]) if not two_outer else "two"
         if form == "tile" and (use_shared or use_excl or use_excl_ptr or inner2 or phases > 1):
             form = "up"
         if form == "tile":
@@ -128,6 +128,16 @@ class _Gen:
             out += "  for (int o = 0; o <= n - %d; o += %d; @outer) {\n" % (I, I)
             base = "o"
             self.features.add("le-loop")
+        elif form == "rev":
+            # the bound on the left of the comparison
+            out += "  for (int o = 0; n > o; o += %d; @outer) {\n" % I
+            base = "o"
+            self.features.add("bound-on-the-left")
+        elif form == "gt":
+            # strict > with a post-decrement
+            out += "  for (int ob = n / %d; ob > 0; ob--; @outer) {\n" % I
+            base = "((ob - 1) * %d)" % I
+            self.features.add("gt-loop")
         elif form == "down":
             out += "  for (int ob = n / %d - 1; ob >= 0; --ob; @outer) {\n" % I
             base = "(ob * %d)" % I
@@ -201,6 +211,12 @@ class _Gen:
                     # an @inner loop that starts at 1: work item k runs i = k + 1
                     out += ind + "  for (int i = 1; i < %d; ++i; @inner) {\n" % (I + 1)
                     self.features.add("inner-start-nonzero")
+                    iexpr = "(i - 1)"
+                elif loop == "down" and r.random() < 0.3:
+                    # strict > with a post-decrement: work item k runs i = I - k
+                    out += ind + "  for (int i = %d; i > 0; i--; @inner) {\n" % I
+                    self.features.add("down-inner")
+                    self.features.add("gt-inner")
                     iexpr = "(i - 1)"
                 elif loop == "up":
                     out += ind + "  for (int i = 0; i < %d; ++i; @inner) {\n" % I
@@ -346,6 +362,9 @@ def reference(src):
             down_from = None
         elif re.match(r"\s*for \(int i = 1; i < \d+; \+\+i\)", l):
             down_from = "from1"
+        mgt = re.match(r"\s*for \(int i = (\d+); i > 0; i--\)", l)
+        if mgt:
+            down_from = int(mgt.group(1))       # position of iterator value i is I - i
         m = re.match(r"\s*const int g = (.*);", l)
         if m:
             if "(ia * 2 + ib)" in l:
